@@ -95,6 +95,8 @@ def run_read_fresh(fn, x):
     x @= v
     r1[0] = 1 - int(r1[0])
     if int(x.uint()) != v: return f'alias writing-the-result-changed-the-source {out}: source {v} -> {int(x.uint())}'
+    r2 = fn()              # the updated result must not be what the operation hands out next time (shared / cached objects)
+    if canon_bits(r2) != out: return f'alias updating-an-earlier-result-changed-the-next-result {out} -> {canon_bits(r2)}'
   except Exception as e:
     return f'alias probe-raised {type(e).__name__} {out}'
   return out
